@@ -17,6 +17,7 @@ names bound in generate_conditions' namespace (shared with C13.k).
 Round 6: the constraints side pairs '!=' partners in both directions (decision
 table shared with C13.a).
 Review of the repairs: penalty_parser parenthesises the bound before the tolerance is appended (C14.h).
+Round 7: the penalty types generate_penalty wraps follow their formulas (C14.i, shared with C15.c).
 NOT decided: values of the generated functions.
 """
 import ast
@@ -205,3 +206,10 @@ def the_bound_of_a_condition_is_one_operand(ctx):
         ctx.check(ok_, 'penalty_parser#bound-is-one-operand', "the bound is parenthesised before ' +/- _tol(...)' is appended",
                   "penalty_parser appends the tolerance to the bare text of the bound (%s): for a bound that ends in a lower-precedence operand ('x0 < x1 or 2', 'x0 > a if b else c') the tolerance belongs to that operand only and a violated strict inequality is measured as satisfied"
                   % norm_stmt(a)[:80], f, a)
+
+
+@rule('C14.i', min_instances=9)
+def the_penalty_types_it_is_given_follow_their_formulas(ctx):
+    """generate_penalty wraps each condition in the penalty type the caller names (ptype=...): what the compiled penalty measures is that type's formula applied to the stated violation - k*h**n*f**2, the barrier forms, the two Lagrange recurrences over the STORED multipliers for iterations 0..n-1. Shared with C15.c: each evaluator of mystic.penalty agrees, path by path, with the reference transcription of its documented formula (a multiplier loop that runs over the records stored so far instead of range(n) multiplies by h once per stored record, not once per iteration)"""
+    from .c15 import formulas
+    return formulas(ctx)
